@@ -1,4 +1,5 @@
 import FluentVerif.Gen.Ctors
+import FluentVerif.Client.Helpers
 /-! # The packed / compressed constructors are what the source says now (C03, C07) -/
 namespace FV.Tie
 open FV FV.Sk.Ct FV.Gen.Ctors
@@ -36,5 +37,16 @@ the writer on it (or creates both on first use); `Bytes` is the buffer — the t
 theorem GzipCompressor_shape :
     GzipCompressor_Write = [.gzWrite, .gzClose, .retErr] ∧ GzipCompressor_Reset = [.ifFirstUseInit, .bufReset, .gzReset] ∧
     GzipCompressor_Bytes = [.retBuffer] := by decide
+
+/-- the three plain constructors build what the helper model (`Helper.wire`) encodes: the second of the call for `NewMessage`, the
+instant itself for `NewMessageExt`, the entries with `size = len(entries)` for `NewForwardMessage` — no other option -/
+theorem plain_constructors (now : Instant) (tag : Bytes) (r : GoVal) (es : List (Instant × GoVal)) :
+    runNewMessage now tag r NewMessage = some (tag, now.sec, r) ∧
+    runNewMessageExt (runEventTimeNow now EventTimeNow) tag r NewMessageExt = some (tag, now, r) ∧
+    runNewForward tag es NewForwardMessage = some (tag, es, some { size := some es.length }) := ⟨rfl, rfl, rfl⟩
+
+/-- `RawMessage.EncodeMsg` hands the writer the bytes verbatim, `nil` for an empty message; `RawMessage.Chunk` is `GetChunk` -/
+theorem RawMessage_is_model (rm : Bytes) :
+    runRawEncode rm RawMessage_EncodeMsg = some (if rm.isEmpty then [0xc0] else rm) ∧ RawMessage_Chunk = [.retGetChunk] := ⟨rfl, rfl⟩
 
 end FV.Tie
